@@ -61,6 +61,10 @@ type c35Plan struct {
 	Chans      []c35Chan `json:"chans"`
 	Procs      int       `json:"procs"`
 	Seed       uint64    `json:"seed"`
+	// Hold: "deliver, then park" writes on the Go side's link end.  0 off; 1 armed when refpeer has
+	// spent a whole window against a delayed reader (the adjusts that follow are delivered while
+	// their writer is parked); 2 armed for the first writes of the traffic phase.
+	Hold int `json:"hold,omitempty"`
 }
 
 func genC35Plan(t *rapid.T) *c35Plan {
@@ -170,9 +174,15 @@ func genC35Plan(t *rapid.T) *c35Plan {
 		case 1:
 			c.In = 2<<20 + pick(t, "in.l", 100000)
 			c.LateRead = pick(t, "late", 2) == 0
+			if pick(t, "hold1", 3) > 0 {
+				p.Hold, c.LateRead = 1, true
+			}
 		default:
 			c.InDrop = 2<<20 + 70000 + pick(t, "indrop.l", 100000) // only possible when discarded bytes are credited back
 		}
+	}
+	if p.Hold == 0 && pick(t, "hold2", 5) == 0 {
+		p.Hold = 2
 	}
 	return p
 }
@@ -229,6 +239,7 @@ type c35Stats struct {
 	huge              bool
 	dropBulk          bool
 	ext2              bool
+	held              int
 }
 
 func (r *c35Run) fail(format string, a ...any) {
@@ -421,6 +432,9 @@ func (r *c35Run) peerLoop() {
 		case mx.MsgPong:
 			if len(p) == 7 && p[5] == 'w' && int(p[6]) < len(r.chans) {
 				c := r.chans[p[6]]
+				if r.plan.Hold == 1 {
+					r.s.hold.Arm(12)
+				}
 				c.usedOnce.Do(func() { close(c.usedAll) })
 				continue
 			}
@@ -495,7 +509,7 @@ func runC35Refpeer(p *c35Plan) (string, c35Stats, error) {
 		r.byPeer[c.peerID] = c
 
 	}
-	s, err := newSession(sessOpts{GoIsClient: p.GoIsClient, Seed: p.Seed, Prog: prog})
+	s, err := newSession(sessOpts{GoIsClient: p.GoIsClient, Seed: p.Seed, Prog: prog, Hold: p.Hold != 0})
 	if err != nil {
 		return "", r.stats, inconclusive("C35 session setup failed: %v", err)
 	}
@@ -559,6 +573,9 @@ func runC35Refpeer(p *c35Plan) (string, c35Stats, error) {
 		}
 		end := watch.Wait(all.doneChan())
 		watch.Wait(work.doneChan())
+		if s.hold != nil {
+			r.stats.held = int(s.hold.Held.Load())
+		}
 		for _, c := range r.chans {
 			r.stats.blockedOnZero += c.blockedOnZero
 			r.stats.hitZero += c.credit.HitZero
@@ -608,6 +625,9 @@ func runC35Refpeer(p *c35Plan) (string, c35Stats, error) {
 		return finish(mx.Result{}, "")
 	}
 	// traffic
+	if p.Hold == 2 {
+		s.hold.Arm(8)
+	}
 	var goErrs atomic.Int32
 	for i := range p.Chans {
 		i := i
@@ -1088,6 +1108,12 @@ func c35Classes(p *c35Plan, st c35Stats) []string {
 	if st.ext2 {
 		cl = append(cl, "concurrent-writers-on-two-extended-codes")
 	}
+	if p.Hold != 0 && p.Mode == "refpeer" {
+		cl = append(cl, fmt.Sprintf("link-deliver-then-park=%d", p.Hold))
+		if st.held > 0 {
+			cl = append(cl, "writer-parked-until-peer-answered")
+		}
+	}
 	if st.blockedOnZero > 0 {
 		cl = append(cl, "writer-blocked-on-zero-window")
 	}
@@ -1176,6 +1202,13 @@ func TestC35(t *testing.T) {
 		if ev.Mine(0) {
 			runOne(&c35Plan{Mode: "refpeer", GoIsClient: true, Procs: 4, Seed: 35, Chans: []c35Chan{{PeerOpens: true, Window: 1000, MaxPkt: 32768, InDrop: 2<<20 + 150000, InCode: 2, InChunk: 32768, ReadBuf: 4096, Refill: 1000}}})
 			runOne(&c35Plan{Mode: "refpeer", GoIsClient: false, Procs: 4, Seed: 36, Chans: []c35Chan{{PeerOpens: false, Window: 1000, MaxPkt: 32768, In: 2 << 20, InChunk: 32768, ReadBuf: 65536, LateRead: true, Refill: 1000}}})
+		}
+		if ev.Mine(1) {
+			// the window is exhausted against a delayed reader; the reader's adjusts are then
+			// delivered while their writer is parked and the compliant peer spends the credit at once
+			for _, rb := range []int{4096, 40000} {
+				runOne(&c35Plan{Mode: "refpeer", GoIsClient: true, Procs: 4, Seed: 37, Hold: 1, Chans: []c35Chan{{PeerOpens: true, Window: 1000, MaxPkt: 32768, In: 2<<20 + 5*32768, InChunk: 32768, ReadBuf: rb, LateRead: true, Refill: 1000}}})
+			}
 		}
 		rapid.Check(t, func(rt *rapid.T) { runOne(genC35Plan(rt)) })
 	}
